@@ -9,6 +9,7 @@
 import WD.Proofs.Debouncer
 import WD.Proofs.Restart
 import WD.Proofs.Restart.Helpers
+import WD.Proofs.Restart.Spawns
 import WD.Proofs.Shell
 namespace WD.C18
 open WD.Deb WD.ProofsDeb
@@ -72,6 +73,36 @@ theorem no_child_after_stop (tid t : Nat)
     (h : Rst.Obs.stopRet tid t ∈ (Rst.run (Rst.init cfg lifetimes rscripts) ras).hist) (pid : Nat) :
     (Rst.run (Rst.init cfg lifetimes rscripts) ras).aliveP pid = false :=
   ProofsRst.no_child_after_stop cfg lifetimes rscripts ras tid t h pid
+
+/-- one scheduler action (a thread step or an advance of the clock) starts at most one child, in every state -/
+theorem one_spawn_per_action (s : Rst.State) (a : Rst.Action) : (Rst.act s a).procs.length ≤ s.procs.length + 1 := by
+  cases a with
+  | tick d => simp [Rst.act]
+  | step i =>
+    simp only [Rst.act, Rst.step]
+    cases hi : s.threads[i]? with
+    | none => simp
+    | some t =>
+      simp only
+      split
+      · exact ProofsRst.stepT_spawns_le_one s i t
+      · simp
+
+/-- children are started only by the locked part of `start()` and by the step that completes `_stop_process` inside
+    `_restart_process` (directly or at the end of the kill loop): a step of `stop()`, of a process watcher or of the
+    debouncer loop itself never starts one, and the restarting thread has left `_stop_process` when it has -/
+theorem spawn_only_in_start_or_restart (s : Rst.State) (i : Nat)
+    (h : s.procs.length < (Rst.act s (.step i)).procs.length) :
+    ∃ t, s.threads[i]? = some t ∧ ProofsRst.spawnSite t.pc = true := by
+  simp only [Rst.act, Rst.step] at h
+  cases hi : s.threads[i]? with
+  | none => simp [hi] at h
+  | some t =>
+    refine ⟨t, rfl, ?_⟩
+    simp only [hi] at h
+    split at h
+    · exact ProofsRst.stepT_spawn_site s i t h
+    · simp at h
 
 /-- … and none is started later -/
 theorem no_spawn_after_stop (p q : List Rst.Obs) (tid t pid t' : Nat)
